@@ -290,6 +290,64 @@ def encode_counter(c, obs):
     return term((ops, nodes, [(v[0], v[1], v[2]) for v in obs["view"]]))
 
 
+# --------------------------------------------------------------------------- merge of arbitrary counter states
+def gen_gc_states(rng):
+    n = rng.randint(2, 4)
+    def st():
+        return {k: rng.randint(1, 9) for k in range(n) if rng.random() < 0.75}
+    return dict(n=n, owners=[rng.randrange(n) for _ in range(3)], states=[st(), st(), st()], kind=rng.choice(["g", "pn"]))
+
+
+def impl_gc_states(c):
+    from happysimulator.components.crdt.g_counter import GCounter
+    from happysimulator.components.crdt.pn_counter import PNCounter
+    ids = [nid(i) for i in range(c["n"])]
+
+    def mk(i):
+        d = {"type": "GCounter", "node_id": ids[c["owners"][i]], "counts": {ids[int(k)]: v for k, v in c["states"][i].items()}}
+        if c["kind"] == "g":
+            return GCounter.from_dict(d)
+        return PNCounter.from_dict({"type": "PNCounter", "node_id": d["node_id"], "p": d, "n": dict(d, counts={})})
+
+    def view(x):
+        g = x if c["kind"] == "g" else x._p
+        return [g._counts.get(k, 0) for k in ids]
+    a, b = mk(0), mk(1)
+    a.merge(b)
+    ab = view(a)
+    a, b = mk(0), mk(1)
+    b.merge(a)
+    ba = view(b)
+    a, b, c3 = mk(0), mk(1), mk(2)
+    a.merge(b)
+    a.merge(c3)
+    ab_c = view(a)
+    a, b, c3 = mk(0), mk(1), mk(2)
+    b.merge(c3)
+    a.merge(b)
+    a_bc = view(a)
+    a = mk(0)
+    a.merge(mk(0))
+    aa = view(a)
+    return dict(ab=ab, ba=ba, ab_c=ab_c, a_bc=a_bc, aa=aa, a=view(mk(0)))
+
+
+def oracle_gc_states(c, o):
+    out = []
+    if o["ab"] != o["ba"]:
+        out.append(dict(clause="counter: merge is commutative (replicas that received the same updates are equal)", ab=o["ab"], ba=o["ba"]))
+    if o["ab_c"] != o["a_bc"]:
+        out.append(dict(clause="counter: merge is associative", left=o["ab_c"], right=o["a_bc"]))
+    if o["aa"] != o["a"]:
+        out.append(dict(clause="counter: merge is idempotent", aa=o["aa"], a=o["a"]))
+    return out
+
+
+def encode_gc_states(c, o):
+    sts = [[(int(k), v) for k, v in sorted(s.items(), key=lambda kv: int(kv[0]))] for s in c["states"]]
+    return term((list(range(c["n"])), (sts[0], sts[1], sts[2]), (o["ab"], o["ba"], o["ab_c"], o["a_bc"], o["aa"])))
+
+
 # --------------------------------------------------------------------------- LWW
 def gen_lww(rng):
     n = rng.randint(2, 4)
@@ -493,6 +551,9 @@ FAMILIES = [
            lambda c, o: term((acts_term(c["acts"]), [tuple(t) for t in o["stamps"]])), oracle_hlc, has_chain),
     Family("counter", IMPORTS, "ok_counter", "list cnt_op * list Z * list (list Z * list Z * Z)", gen_counter, impl_counter,
            encode_counter, oracle_counter, lambda c, o: any(x[0] in ("merge", "msnap") for x in c["ops"])),
+    Family("gcstates", IMPORTS, "ok_gc_states",
+           "list Z * (list (Z * Z) * list (Z * Z) * list (Z * Z)) * (list Z * list Z * list Z * list Z * list Z)",
+           gen_gc_states, impl_gc_states, encode_gc_states, oracle_gc_states, lambda c, o: True),
     Family("lww", IMPORTS, "ok_lww", "list lww_op * list Z * list lww", gen_lww, impl_lww,
            encode_lww, oracle_lww, lambda c, o: any(x[0] == "merge" for x in c["ops"])),
     Family("orset", IMPORTS, "ok_orset", "list os_op * list Z * list (Z * list (Z * tag))", gen_orset, impl_orset,
